@@ -1,9 +1,3 @@
 #!/bin/bash
-# try_seed.sh <seed-name> <Cnn> [tier]: applies seeded/<seed-name>/patch.diff to /repo, runs ./check Cnn, undoes the patch
-cd /verif
-git -C /repo diff --quiet || { echo "/repo dirty"; exit 2; }
-git -C /repo apply /verif/seeded/$1/patch.diff || exit 2
-./check $2 ${3:-quick} 2>&1 | grep -E "^VIOLATION|^OK|^KNOWN|\[check\] C" | cut -c1-260
-git -C /repo checkout -- .
-git -C /repo status --short | head -3
-case "$2" in C15|C17|C18|C19) ./check $2 quick >/dev/null 2>&1;; esac  # regenerate the translator table from the clean tree
+# try_seed.sh <seed-name> [Cnn] [tier]: one stored seeded change against the check of its property (see run_all_seeds.sh)
+cd /verif; TIER=${3:-quick} tools/run_all_seeds.sh "$1"
